@@ -176,15 +176,24 @@ def record(payload):
         events = []
         tail_events = []
 
+        from ..frames import model_snapshot
+        sources = {}
+
         def guarded(name, fn):
+            """run one conversion; afterwards every source model built so far must be what it was (deep snapshot)"""
+            snaps = {k: model_snapshot(m) for k, m in sources.items()}
             try:
-                return fn()
+                r = fn()
             except Exception as ex:  # noqa
-                events.append({"ev": name + "_raised", "exc": repr(ex)[:200]})
-                return None
+                events.append({"ev": "raised", "api": name, "exc": repr(ex)[:200]})
+                r = None
+            changed = sorted(k for k, m in sources.items() if model_snapshot(m) != snaps[k])
+            events.append({"ev": "frame", "api": name, "same": not changed, "changed": changed})
+            return r
         connected = not inst.get("disconnected")
         if inst["kind"] == "bn":
             bn = build_bn({"nodes": inst["nodes"], "states": inst["states"], "parents": inst["parents"], "cpd": inst["cpd"]}, conc, rng)
+            sources["bn"] = bn
             mn = guarded("to_markov_model", bn.to_markov_model)
             if mn is not None:
                 events.append(_mn_event("to_markov_model", mn, conc))
@@ -194,6 +203,7 @@ def record(payload):
         else:
             mn = mnutil.build_mn(inst, conc, rng)
         if mn is not None:
+            sources["mn"] = mn
             fg = guarded("to_factor_graph", mn.to_factor_graph)
             if fg is not None:
                 try:
@@ -218,6 +228,8 @@ def record(payload):
             #  such instances have no factor-graph representation and skip this path)
             has_dups = _has_dups(inst)
             fg2 = None if has_dups else mnutil.build_fg(inst, conc, rng)
+            if fg2 is not None:
+                sources["fg"] = fg2
             mn2 = guarded("fg_to_markov_model", fg2.to_markov_model) if fg2 is not None else None
             if mn2 is not None:
                 events.append(_mn_event("fg_to_markov_model", mn2, conc))
